@@ -940,7 +940,7 @@ mod n {
                 let ps = c.of(&[None, Some(0x30u128), Some(0x31)]);
                 let es = c.of(&[None, Some(0x31u128), Some(0x32)]);
                 m.loads.push(SpaceLoads { id: uid(0xB0), name: "L0".into(), area_per_person: 10.0, people_schedule: ps.map(uid), people_sensible: 5.0, people_latent: 2.0, equipment: 4.0, equipment_schedule: es.map(uid), lighting: 3.0, lighting_schedule: None });
-                m.loads.push(SpaceLoads { id: uid(0xB1), name: "L1".into(), area_per_person: 10.0, people_schedule: Some(uid(0x32)), people_sensible: 5.0, people_latent: 2.0, equipment: 4.0, equipment_schedule: None, lighting: 3.0, lighting_schedule: Some(uid(0x32)) });
+                m.loads.push(SpaceLoads { id: uid(0xB1), name: "L1".into(), area_per_person: 10.0, people_schedule: Some(uid(0x32)), people_sensible: 5.0, people_latent: 2.0, equipment: 4.0, equipment_schedule: None, lighting: 3.0, lighting_schedule: Some(uid(0x30)) });
                 let ts = c.of(&[None, Some(0x31u128), Some(0x32)]);
                 m.thermostats.push(Thermostat { id: uid(0xB8), name: "T0".into(), temp_max: ts.map(uid), temp_min: None });
                 m.thermostats.push(Thermostat { id: uid(0xB9), name: "T1".into(), temp_max: Some(uid(0x30)), temp_min: Some(uid(0x30)) });
